@@ -1,8 +1,8 @@
 (* C04 - Subdividing or specializing a curve preserves its shape.
    ONLY statements, each closed by `exact`, each followed by Print Assumptions. *)
-From Coq Require Import List Arith QArith Qcanon.
+From Coq Require Import List Arith QArith Qcanon Reals.
 From BZ Require Import Base.Ops Base.QcInst Model.Curve Model.CurvePy Gen.PyCurveHelpers
-  Theory.CurveEval Theory.CurveSubdiv Theory.CurveTables.
+  Theory.CurveEval Theory.CurveSubdiv Theory.CurveTables Base.RInst Theory.Rounding Theory.SubdivRound.
 Import ListNotations.
 
 (* specialize_curve returns the control points of sigma -> B(a + (b-a) sigma):
@@ -59,6 +59,32 @@ Theorem C04_subdivide_nodes_shape :
     = bernstein QcOps v (1 - ((1 - s) * half QcOps + s)) ((1 - s) * half QcOps + s).
 Proof. exact subdivide_nodes_py_shape. Qed.
 Print Assumptions C04_subdivide_nodes_shape.
+
+(* ROUNDING (standard model of floating point, as in C01): every control point returned by the model of specialize_curve,
+   executed in any arithmetic with relative error u per operation, differs from the exact reparametrised control point
+   (theorem C04_specialize_is_reparametrization) by at most ((1+u)^(3n) - 1) times the same blossom of the absolute values.
+   Every degree n >= 1, every net, every a, b. *)
+Theorem C04_specialize_rounding_bound :
+  forall (u : R) (fl : R -> R), (0 <= u)%R -> (forall x, (Rabs (fl x - x) <= u * Rabs x)%R) ->
+  forall (v : list R) (a b : R) (j : nat), (2 <= length v)%nat -> (j <= length v - 1)%nat ->
+  (Rabs (nth j (specialize (FlOps fl) v a b) 0 - nth j (specialize ROps v a b) 0)
+   <= ((1 + u) ^ (3 * (length v - 1)) - 1) * Pabs a b (length v - 1) j v)%R.
+Proof. intros u fl Hu Hs v a b j Hl Hj. exact (proj1 (specialize_node_rounding u Hu fl Hs v a b j Hl Hj)). Qed.
+Print Assumptions C04_specialize_rounding_bound.
+(* generic subdivision (matrices AND products computed in the same arithmetic, 2 exactly representable): 4n + 2 roundings *)
+Theorem C04_subdivide_rounding_bound :
+  forall (u : R) (fl : R -> R), (0 <= u)%R -> (forall x, (Rabs (fl x - x) <= u * Rabs x)%R) -> fl 2%R = 2%R ->
+  forall (v : list R) (j : nat), (j <= length v - 1)%nat ->
+  (Rabs (nth j (subdivide_left (FlOps fl) v) 0 - nth j (subdivide_left ROps v) 0)
+   <= ((1 + u) ^ (4 * (length v - 1) + 2) - 1) * nth j (subdivide_left ROps (map Rabs v)) 0)%R /\
+  (Rabs (nth j (subdivide_right (FlOps fl) v) 0 - nth j (subdivide_right ROps v) 0)
+   <= ((1 + u) ^ (4 * (length v - 1) + 2) - 1) * nth j (subdivide_right ROps (map Rabs v)) 0)%R.
+Proof.
+  intros u fl Hu Hs H2 v j Hj. split.
+  - exact (proj1 (subdivide_left_rounding u Hu fl Hs H2 v j Hj)).
+  - exact (proj1 (subdivide_right_rounding u Hu fl Hs H2 v j Hj)).
+Qed.
+Print Assumptions C04_subdivide_rounding_bound.
 
 (* non-vacuity: a concrete cubic meets the hypotheses and the halves are what one expects *)
 Example C04_example :
